@@ -412,7 +412,9 @@ func registerEnv(e *Engine) {
 	// tickers and timers never fire on their own
 	e.reg("time.NewTicker", func(in *interp, fr *frame, a []value) value {
 		tk := in.zero(in.eng.namedType("time", "Ticker")).(structure)
-		tk[0] = &channel{capacity: 1, site: "time.Ticker"}
+		ch := &channel{capacity: 1, site: "time.Ticker"}
+		in.tickers = append(in.tickers, ch)
+		tk[0] = ch
 		var v value = tk
 		return &v
 	})
